@@ -471,6 +471,42 @@ def ubjson_classify_factory(markers):
         return (ev, None, None)
     return f
 
+def r06_timestamp(chk, facts):
+    """MessagePack timestamp extension (type -1): the 32/64/96-bit form chosen must carry (seconds, nanoseconds) without loss."""
+    fns = [f for f in U.functions(facts, cls='basic_msgpack_encoder', name='write_timestamp') if f.get('body') is not None]
+    chk.require(fns, 'basic_msgpack_encoder::write_timestamp not found')
+    secs = [0, 1, (1 << 32) - 1, 1 << 32, (1 << 34) - 1, 1 << 34, 1 << 40, -1, -(1 << 40)]
+    nans = [0, 1, 999999999]
+    for fn in U.one_per_inst(fns)[:1]:
+        chk.analysed(fn)
+        for sv in secs:
+            for nv in nans:
+                out, err, eff = outputs(facts, fn, {'seconds': sv, 'nanoseconds': nv})
+                site = U.site(fn, 'timestamp sec=%d nsec=%d' % (sv, nv))
+                why = None
+                b = [o for o in out]
+                def u(v, bits): return v & ((1 << bits) - 1)
+                if not b or b[0][0] != 'byte': why = 'no marker byte written'
+                else:
+                    m = b[0][1]
+                    if m == 0xd6:      # fixext4: uint32 seconds
+                        if len(b) < 3 or b[1][1] != 0xff: why = 'fixext4 without type -1'
+                        elif b[2][0] != 'native_to_big' or b[2][1] not in ('unsigned int',): why = 'timestamp32 payload written as %s' % (b[2][1],)
+                        elif nv != 0 or not (0 <= sv < (1 << 32)) or b[2][2] != sv: why = 'timestamp32 (uint32 seconds) chosen, it carries seconds=%s nanoseconds=0' % (b[2][2],)
+                    elif m == 0xd7:    # fixext8: nsec:30 | sec:34
+                        if len(b) < 3 or b[1][1] != 0xff: why = 'fixext8 without type -1'
+                        elif b[2][0] != 'native_to_big' or b[2][1] not in ('unsigned long', 'unsigned long long'): why = 'timestamp64 payload written as %s' % (b[2][1],)
+                        else:
+                            v = b[2][2]
+                            if v is None or (v >> 34) != nv or (v & 0x3ffffffff) != sv or not (0 <= sv < (1 << 34)): why = 'timestamp64 chosen, it decodes to seconds=%s nanoseconds=%s' % (None if v is None else v & 0x3ffffffff, None if v is None else v >> 34)
+                    elif m == 0xc7:    # ext8 length 12: uint32 nsec, int64 sec
+                        if len(b) < 5 or b[1][1] != 12 or b[2][1] != 0xff: why = 'ext8 timestamp header is not (12, -1)'
+                        elif b[3][0] != 'native_to_big' or b[3][1] != 'unsigned int' or b[3][2] != nv: why = 'timestamp96 nanoseconds field carries %s' % (b[3][2],)
+                        elif b[4][0] != 'native_to_big' or b[4][1] not in ('unsigned long', 'long', 'unsigned long long', 'long long') or u(b[4][2], 64) != u(sv, 64): why = 'timestamp96 seconds field carries %s' % (b[4][2],)
+                    else: why = 'marker 0x%02x is not a timestamp form' % m
+                if why is None: chk.ok('R06.msgpack', site, {'marker': '0x%02x' % b[0][1]} if (sv, nv) in ((0, 0), (1 << 32, 0), (1 << 34, 1)) else None)
+                else: chk.fail('R06.msgpack', U.site(fn, 'timestamp form'), fn['file'], b[0][2] if b else fn['l'], 'write_timestamp(seconds=%d, nanoseconds=%d): %s' % (sv, nv, why), None, fn['q'])
+
 def run(chk, tier, only_rule=None):
     chk.explanation = EXPLANATION
     chk.not_decided = NOT_DECIDED
@@ -503,6 +539,7 @@ def ladders(chk, tier):
         is_ext = 'raw_tag' in [p_['n'] for p_ in fn['params']] or 'unsigned long' == F.tname(fn, fn['params'][1]['t'])
         check_ladder(chk, 'R06.msgpack', facts, fn, 'length', 0, U64, lambda v, o, fam=('ext' if is_ext else 'bin'): msgpack_decode(rows, v, o, fam), label='visit_byte_string(%s)' % ('ext' if is_ext else 'bin'))
     r06_scalars_msgpack(chk, facts, rows)
+    r06_timestamp(chk, facts)
     for fn in one('basic_msgpack_encoder', 'visit_begin_array', lambda f: len(f['params']) == 4):
         check_ladder(chk, 'R06.msgpack', facts, fn, 'length', 0, U64, lambda v, o: msgpack_decode(rows, v, o, 'array'))
     for fn in one('basic_msgpack_encoder', 'visit_begin_object', lambda f: len(f['params']) == 4):
